@@ -166,6 +166,7 @@ impl<'a> SectionsBuilder<'a> {
                 }
 
                 self.builder.set_id(id);
+                self.builder.set_insert(false);
             }
             OrderedList(list) => {
                 self.builder.ordered_list();
@@ -177,6 +178,7 @@ impl<'a> SectionsBuilder<'a> {
                 }
 
                 self.builder.set_id(id);
+                self.builder.set_insert(false);
             }
             BlockQuote(quote) => {
                 self.builder.quote();
